@@ -41,6 +41,8 @@ func (c *Conversation) processAKE(msgType byte, msg []byte) (toSend []messageWit
 	var toSendSingle messageWithHeader
 	var toSendExtra []messageWithHeader
 
+	previousState, previousStateChange := c.ake.state.identity(), c.ake.lastStateChange
+
 	switch msgType {
 	case msgTypeDHCommit:
 		c.ake.state, toSendSingle, err = c.ake.state.receiveDHCommitMessage(c, msg)
@@ -57,6 +59,10 @@ func (c *Conversation) processAKE(msgType byte, msg []byte) (toSend []messageWit
 	}
 
 	c.ake.lastStateChange = time.Now()
+	if toSendSingle == nil && c.ake.state.identity() == previousState {
+		// a message that was rejected or ignored is no state change: it must not make us ignore queries
+		c.ake.lastStateChange = previousStateChange
+	}
 
 	messages := append([]messageWithHeader{toSendSingle}, toSendExtra...)
 	toSend = compactMessagesWithHeader(messages...)
